@@ -814,7 +814,7 @@ Module Examples.
        (true, false, Some IndexError); (true, false, Some AssertionError);
        (true, false, Some ValueError); (true, false, Some AssertionError);
        (true, false, Some ValueError); (true, false, Some ValueError);
-       (true, false, Some AssertionError); (true, false, Some ValueError)].
+       (true, false, Some ValueError); (true, false, Some ValueError)].
   Proof. vm_compute. reflexivity. Qed.
 End Examples.
 
